@@ -417,8 +417,21 @@ func runStreamScenario(seed int64, viaGrpc bool) (*streamResult, error) {
 			cancel()
 			return nil, err
 		}
+		// a client may set only one of the two limits; the other then takes the server's
+		// default (Streamer.effective_fc: 1000 messages / 10 MiB)
+		reqM, reqB := int64(maxM), int64(maxB)
+		switch r.Intn(3) {
+		case 1:
+			reqB = 0
+			maxB = 10 * 1024 * 1024
+		case 2:
+			reqM = 0
+			maxM = 1000
+		}
+		cl.maxM, cl.maxB = maxM, maxB
+		res.MaxM, res.MaxB = maxM, maxB
 		if err := st.Send(&pubsubpb.StreamingPullRequest{Subscription: subName, StreamAckDeadlineSeconds: 10,
-			MaxOutstandingMessages: int64(maxM), MaxOutstandingBytes: int64(maxB)}); err != nil {
+			MaxOutstandingMessages: reqM, MaxOutstandingBytes: reqB}); err != nil {
 			cancel()
 			return nil, err
 		}
@@ -571,11 +584,13 @@ func runStreamScenario(seed int64, viaGrpc bool) (*streamResult, error) {
 	}
 	// what became of the ids the client settled on the stream / outside it
 	var ackedIDs, nackedIDs []uuid.UUID
+	zeroNacked := map[uuid.UUID]int64{} // ack id -> attempts when it was nacked with a zero deadline
 	// a nacked message that is sent again and then acked is legitimately completed
 	forgetNacks := func(ids []uuid.UUID) {
 		drop := map[uuid.UUID]bool{}
 		for _, id := range ids {
 			drop[id] = true
+			delete(zeroNacked, id)
 		}
 		var keep []uuid.UUID
 		for _, id := range nackedIDs {
@@ -595,6 +610,16 @@ func runStreamScenario(seed int64, viaGrpc bool) (*streamResult, error) {
 				cl.viol = append(cl.viol, fmt.Sprintf("ack-not-completed: ack id %s was acknowledged by the client and its delivery is still unacknowledged in the database", id))
 				break
 			}
+		}
+		for id, att := range zeroNacked {
+			// a zero deadline makes the message immediately redeliverable: it has been sent again
+			// by now, or is due now
+			if x := d.del(id); x != nil && x.Completed == nil && x.Attempts <= att && x.AttemptAt > e.VNow()+int64(200*time.Millisecond) {
+				cl.viol = append(cl.viol, fmt.Sprintf("zero-deadline-not-immediate: ack id %s was nacked with a zero deadline on the stream; it was not sent again and its next attempt is %v away",
+					id, time.Duration(x.AttemptAt-e.VNow()).Round(time.Millisecond)))
+				break
+			}
+			delete(zeroNacked, id)
 		}
 		for _, id := range nackedIDs {
 			if x := d.del(id); x != nil && x.Completed != nil {
@@ -642,6 +667,15 @@ func runStreamScenario(seed int64, viaGrpc bool) (*streamResult, error) {
 			asDelay := r.Intn(2) == 0
 			cl.note("stream nack %d (as zero deadline: %v)", len(ids), asDelay || viaGrpc)
 			nackedIDs = append(nackedIDs, ids...)
+			if asDelay || viaGrpc {
+				if d, err := e.dumpR(ctx); err == nil {
+					for _, id := range ids {
+						if x := d.del(id); x != nil {
+							zeroNacked[id] = x.Attempts
+						}
+					}
+				}
+			}
 			cl.settle(ids)
 			if err := link.nack(ids, asDelay); err != nil {
 				return nil, err
@@ -713,6 +747,93 @@ func runStreamScenario(seed int64, viaGrpc bool) (*streamResult, error) {
 	res.Events = cl.events
 	cl.mu.Unlock()
 	res.WallMS = time.Since(start).Milliseconds()
+	return res, nil
+}
+
+// holdConn: a StreamConnection whose Send hands the message to the client at once but returns
+// only when released (a client can acknowledge a message before the server's send call for
+// it has returned)
+type holdConn struct {
+	scriptConn
+	gate chan struct{}
+	sent chan uuid.UUID
+}
+
+func (h *holdConn) Send(ctx context.Context, d *actions.SubscriptionMessageDelivery) error {
+	h.cl.onSend(d.ID, d.MessageID, len(d.Payload))
+	select {
+	case h.sent <- d.ID:
+	default:
+	}
+	select {
+	case <-h.gate:
+	case <-ctx.Done():
+	}
+	return nil
+}
+
+// runAckDuringSend: limit 1 message; the client acknowledges each message while the server's
+// Send for it has not yet returned; the next message must follow
+func runAckDuringSend() (*streamResult, error) {
+	ctx := context.Background()
+	e, err := NewEnv(true)
+	if err != nil {
+		return nil, err
+	}
+	defer e.Close()
+	res := &streamResult{Scenario: "forced:ack-during-send", MaxM: 1, MaxB: 100000}
+	topic, subName := "projects/p/topics/g", "projects/p/subscriptions/g"
+	pre, _ := e.dumpR(ctx)
+	e.Exec(ctx, &Op{Kind: "CreateTopic", Name: topic}, pre)
+	mn, mx := 60*time.Second, 120*time.Second
+	e.Exec(ctx, &Op{Kind: "CreateSub", Sub: &SubReq{Name: subName, Topic: topic, Retry: &[2]*time.Duration{&mn, &mx}}}, pre)
+	for i := 0; i < 3; i++ {
+		d, _ := e.dumpR(ctx)
+		if o, err := e.Exec(ctx, &Op{Kind: "Publish", Name: topic, Msgs: []PubMsg{{Data: sizedPayload(10)}}}, d); err != nil || o.Resp.Kind != "ids" {
+			return nil, fmt.Errorf("publish: %v", err)
+		}
+	}
+	d0, _ := e.dumpR(ctx)
+	sub := d0.subByName(subName)
+	cl := &streamClient{out: map[uuid.UUID]int{}, maxM: 1, maxB: 100000}
+	conn := &holdConn{scriptConn: scriptConn{in: make(chan *actions.MessageStreamRequest), closed: make(chan struct{}), cl: cl},
+		gate: make(chan struct{}), sent: make(chan uuid.UUID, 8)}
+	sctx, cancel := context.WithCancel(ctx)
+	defer cancel()
+	ms := &actions.MessageStreamer{Client: e.Client, SubscriptionID: &sub.ID, SubscriptionName: subName, AutomaticNack: true}
+	done := make(chan error, 1)
+	go func() { done <- ms.Go(sctx, conn) }()
+	push := func(m *actions.MessageStreamRequest) error {
+		select {
+		case conn.in <- m:
+			return nil
+		case <-time.After(5 * time.Second):
+			return fmt.Errorf("streamer does not receive")
+		}
+	}
+	if err := push(&actions.MessageStreamRequest{FlowControl: &actions.FlowControl{MaxMessages: 1, MaxBytes: 100000}}); err != nil {
+		return nil, err
+	}
+	for i := 0; i < 3; i++ {
+		select {
+		case id := <-conn.sent:
+			cl.note("message %s handed over; the client acknowledges it before Send returns", id.String()[:8])
+			cl.settle([]uuid.UUID{id})
+			if err := push(&actions.MessageStreamRequest{Ack: []uuid.UUID{id}}); err != nil {
+				return nil, err
+			}
+			time.Sleep(80 * time.Millisecond) // the reader settles the ack
+			conn.gate <- struct{}{}           // now Send returns
+		case <-time.After(stallBound):
+			cl.viol = append(cl.viol, fmt.Sprintf("stall: limit 1 message, %d messages acknowledged (each before the server's Send call for it had returned), %d deliverable messages remain, nothing was sent for %v", i, 3-i, stallBound))
+			i = 3
+		}
+	}
+	cl.mu.Lock()
+	res.Sends = len(cl.sends)
+	res.Violations = append(res.Violations, cl.viol...)
+	res.Events = cl.events
+	cl.mu.Unlock()
 	return res, nil
 }
 
@@ -979,7 +1100,20 @@ func runForced(kind string) (*streamResult, error) {
 		select {
 		case <-blocked:
 		case <-time.After(3 * time.Second):
-			return nil, fmt.Errorf("forced nack-refetch: the nack transaction was not seen")
+			// the zero-deadline nack did not run the deadline transaction this schedule hooks
+			// into: the schedule cannot be forced; what became of the nack is judged below
+			cl.note("the nack's deadline transaction was not seen (schedule not reached)")
+			close(release)
+			time.Sleep(200 * time.Millisecond)
+			d, _ := e.dumpR(ctx)
+			if x := d.del(a); x != nil && x.Completed != nil {
+				cl.viol = append(cl.viol, fmt.Sprintf("nack-completed: ack id %s was nacked on the stream with a zero deadline and its delivery is now marked acknowledged", a))
+			}
+			cl.mu.Lock()
+			res.Violations = append(res.Violations, cl.viol...)
+			res.Events = cl.events
+			cl.mu.Unlock()
+			return res, nil
 		}
 		// any committed change on the subscription wakes the waiting fetch
 		actions.WakePublishListeners(false, sub.ID)
@@ -995,7 +1129,13 @@ func runForced(kind string) (*streamResult, error) {
 		select {
 		case <-blocked:
 		case <-time.After(3 * time.Second):
-			return nil, fmt.Errorf("forced refresh-race: the refresher's query was not seen")
+			cl.note("the refresher's query was not seen (schedule not reached)")
+			close(release)
+			cl.mu.Lock()
+			res.Violations = append(res.Violations, cl.viol...)
+			res.Events = cl.events
+			cl.mu.Unlock()
+			return res, nil
 		}
 		if err := publish(1); err != nil {
 			return nil, err
@@ -1079,6 +1219,14 @@ func cmdStream(args []string) error {
 		results = append(results, xr)
 		tot["sends"] += xr.Sends
 		tot["violations"] += len(xr.Violations)
+	}
+	if ar, err := runAckDuringSend(); err != nil {
+		return err
+	} else {
+		results = append(results, ar)
+		tot["scenarios_forced"]++
+		tot["sends"] += ar.Sends
+		tot["violations"] += len(ar.Violations)
 	}
 	for _, k := range []string{"nack-refetch", "refresh-race"} {
 		fr, err := runForced(k)
